@@ -223,18 +223,22 @@ def build_path(out, h, r, n):
     must be the key of its state at the time it is hashed -- the one GetTargetChangeHash gives for that state on its own --
     whatever was hashed before in the same build (no dependence on scheduling or on the other targets of the build)."""
     conts = ["hello", "HELLO", "", "x", "xy", None]
-    cases = [("p", "src.txt", "hello", "HELLO", "c"), ("p", "gen.txt", None, "made", "c"), ("p", "gen.txt", "old", None, "c")]
+    # 6th field: the rewrite preserves the modification time (same length, same mtime, different bytes: stat metadata must not
+    # stand in for the content)
+    cases = [("p", "src.txt", "hello", "HELLO", "c", False), ("p", "gen.txt", None, "made", "c", False), ("p", "gen.txt", "old", None, "c", False),
+             ("p", "src.txt", "hello", "HELLO", "c", True), ("p", "v.txt", "v1.2.3", "v1.2.4", "c", True), ("", "a", "x", "y", "", True)]
     for _ in range(n):
         c1, c2 = r.choice(conts), r.choice(conts)
-        cases.append((r.choice(["p", "p/q", ""]), r.choice(["s.txt", "d/s.txt", "a"]), c1, c2, r.choice(["c", "tr a-z A-Z", ""])))
+        cases.append((r.choice(["p", "p/q", ""]), r.choice(["s.txt", "d/s.txt", "a"]), c1, c2, r.choice(["c", "tr a-z A-Z", ""]), r.chance(1, 3)))
     enc = lambda c: "!" if c is None else hx(c)
     lines, idx = [], []
     for algo in ALGOS:
-        for pkg, pth, c1, c2, cmd in cases:
+        for pkg, pth, c1, c2, cmd, keep in cases:
             sa = {"pkg": pkg, "name": "a", "cmd": cmd, "ins": [pth], "files": {pth: c1}, "outs": [], "deps": [], "fp": {}, "multi": False}
             sb = dict(sa, name="b", files={pth: c2}, deps=["//%s:a=oh1" % pkg])
-            lines += ["build\t%s\t%s\t%s\t%s\t%s\t%s" % (algo, hx(pkg), hx(pth), enc(c1), enc(c2), hx(cmd)), line(sa, algo, "bA"), line(sb, algo, "bB")]
-            idx.append((algo, pkg, pth, c1, c2, cmd))
+            lines += ["build\t%s\t%s\t%s\t%s\t%s\t%s%s" % (algo, hx(pkg), hx(pth), enc(c1), enc(c2), hx(cmd), "\tkeepmtime" if keep else ""),
+                      line(sa, algo, "bA"), line(sb, algo, "bB")]
+            idx.append((algo, pkg, pth, c1, c2, cmd, keep))
     rc, res, err = vlib.run_lines(h, lines)
     if rc != 0 or len(res) != len(lines):
         raise RuntimeError("hashkey harness failed on the build path rc=%s %s" % (rc, err[-500:]))
@@ -251,7 +255,7 @@ def build_path(out, h, r, n):
                               "is hashed (it was %r when target a, which lists it too, was hashed): build gives %s, the state on its own %s" % (
                                   case[2], case[4], case[3], got[2], kb[1]),
                               {"algo": case[0], "pkg": case[1], "input": case[2], "content_when_a_hashed": case[3], "content_when_b_hashed": case[4],
-                               "command": case[5], "build_keys": got[1:], "state_keys": [ka[1], kb[1]]})
+                               "command": case[5], "rewrite_preserves_mtime": case[6], "build_keys": got[1:], "state_keys": [ka[1], kb[1]]})
     return {"build_path_cases": len(idx), "build_path_cases_with_changed_file": changed, "build_path_disagreements": bad}
 
 
